@@ -111,6 +111,45 @@ fn leftover(dir: &str) -> String {
     if n == 0 { "".into() } else { format!("|leftover={}", n) }
 }
 
+
+/// canonical listing of the counter's output directory: temp files by (partition, chunk), then the counts table,
+/// then the vectors file (presence only), then anything else by name
+fn dir_listing(dir: &str) -> String {
+    fn table(bytes: &[u8]) -> String {
+        let mut m: std::collections::BTreeMap<u64, u64> = std::collections::BTreeMap::new();
+        for l in String::from_utf8_lossy(bytes).lines() {
+            if l.is_empty() { continue; }
+            let mut it = l.split('\t');
+            match (it.next().and_then(|x| x.parse::<u64>().ok()), it.next().and_then(|x| x.parse::<u64>().ok())) {
+                (Some(k), Some(v)) => { *m.entry(k).or_insert(0) += v; }
+                _ => return format!("RAW{}", hex(bytes)),
+            }
+        }
+        m.iter().map(|(k, v)| format!("{}:{}", k, v)).collect::<Vec<_>>().join(",")
+    }
+    let mut temps: Vec<(u64, u64, String)> = vec![];
+    let mut counts: Option<String> = None; let mut vectors = false; let mut other: Vec<String> = vec![];
+    for e in std::fs::read_dir(dir).unwrap() {
+        let e = e.unwrap(); let name = e.file_name().to_string_lossy().to_string();
+        let bytes = std::fs::read(e.path()).unwrap_or_default();
+        if let Some(rest) = name.strip_prefix("temp_kmers.part_") {
+            let mut it = rest.split("_chunk_");
+            match (it.next().and_then(|x| x.parse::<u64>().ok()), it.next().and_then(|x| x.parse::<u64>().ok())) {
+                (Some(p), Some(c)) => temps.push((p, c, table(&bytes))),
+                _ => other.push(name),
+            }
+        } else if name == "kmers.counts" { counts = Some(table(&bytes)); }
+        else if name == "kmers.vectors" { vectors = true; }
+        else { other.push(name); }
+    }
+    temps.sort(); other.sort();
+    let mut items: Vec<String> = temps.iter().map(|(p, c, t)| format!("t{}.{}={}", p, c, t)).collect();
+    if let Some(t) = counts { items.push(format!("counts={}", t)); }
+    if vectors { items.push("vectors".into()); }
+    for o in other { items.push(format!("other:{}", o)); }
+    items.join(";")
+}
+
 fn canon_counts(acgt: bool, text: &str) -> String {
     let mut lines: Vec<(String, String)> = text.lines().map(|l| { let mut it = l.split('\t'); (it.next().unwrap_or("?").to_string(), it.next().unwrap_or("?").to_string()) }).collect();
     if acgt { lines.sort(); } else { lines.sort_by_key(|(k, c)| (k.parse::<u64>().unwrap_or(u64::MAX), c.clone())); }
@@ -335,6 +374,32 @@ pub fn exec(p: &[&str], scratch: &str) -> String {
             }
             // stale planted chunk files are not this run's temp files: they may stay, but must not be merged
             match last.find("|leftover=") { Some(ix) if p[1] == "1" => last[..ix].to_string(), _ => last }
+        }
+        "ctrfs" => {
+            // ctrfs k limit plant recs : the counter's files.  One worker; the directory may hold the files of an
+            // earlier, bigger run; result = partitions,chunks | listing after count() | listing after merge(true)
+            let d = fresh(scratch);
+            let recs = unhex_list(p[4]);
+            let inp = serialise(&recs, "fa", 0, &d, "in");
+            let od = format!("{}/out", d); std::fs::create_dir_all(&od).unwrap();
+            let limit: u64 = p[2].parse().unwrap();
+            let mem = 8.0 * (limit as f64 + 0.5) / 1_000_000_000_f64;
+            if (1_000_000_000_f64 * mem / 8.0) as u64 != limit { return "BAD-LIMIT".into(); }
+            if p[3] == "1" {
+                for part in 0..20 { for chunk in 0..4 {
+                    std::fs::write(format!("{}/temp_kmers.part_{}_chunk_{}", od, part, chunk), format!("{}\t7\n{}\t3\n", part, part + 100)).unwrap();
+                } }
+                std::fs::write(format!("{}/kmers.counts", od), "1\t1\n2\t2\n").unwrap();
+                std::fs::write(format!("{}/kmers.vectors", od), "stale").unwrap();
+            }
+            let mut c = counter::CountComputer::new(inp, od.clone(), p[1].parse().unwrap());
+            c.set_threads(1);
+            c.set_max_memory(mem);
+            c.count();
+            let (chunks, parts) = c.verif_chunks_parts();
+            let a = dir_listing(&od);
+            c.merge(true);
+            format!("{},{}|{}|{}", parts, chunks, a, dir_listing(&od))
         }
         "readc" => {
             // readc <container> <recs> : the records as the reader and the statistics pass deliver them from a container
